@@ -597,6 +597,11 @@ func TestVerifC04Justice(t *testing.T) {
 						break
 					}
 				}
+			case "StaleTouch":
+				// status update through a stale handle (see channel_exec_test.go): the
+				// model leaves everything unchanged; not exercised by this executor
+			case "SoftDisconnect":
+				// API-level event, never generated for this executor's profiles
 			case "SendReest":
 				var m *lnwire.ChannelReestablish
 				m, err = me.lc.State().ChanSyncMsg()
